@@ -566,6 +566,31 @@ func Describe(property, explanation string, assumptions ...string) {
 // violation, they are what the rules of this property did not look at.
 func (c *Ctx) audit() map[string]any {
 	out := map[string]any{}
+	if dump := os.Getenv("OTELCHECK_DUMP_OBS"); dump != "" {
+		// development aid: every obligation of the run and every repository function with its extent
+		if f, err := os.OpenFile(dump, os.O_APPEND|os.O_CREATE|os.O_WRONLY, 0o644); err == nil {
+			enc := json.NewEncoder(f)
+			for _, o := range c.Obs {
+				if !o.Canary {
+					enc.Encode(map[string]any{"prop": c.Property, "rule": o.Rule, "key": o.Key, "pos": o.Pos, "fn": o.Fn, "st": o.Status.String()})
+				}
+			}
+			for _, p := range c.progs {
+				if p == nil {
+					continue
+				}
+				for fn := range p.AllFns {
+					if fn.Blocks == nil || fn.Synthetic != "" || fn.Parent() != nil || fn.Syntax() == nil || !InRepo(FnPkgPath(fn)) || IsCanaryPath(FnPkgPath(fn)) {
+						continue
+					}
+					a := p.Fset.Position(fn.Syntax().Pos())
+					b := p.Fset.Position(fn.Syntax().End())
+					enc.Encode(map[string]any{"prop": c.Property, "func": FuncName(fn), "file": strings.TrimPrefix(a.Filename, c.Repo+"/"), "from": a.Line, "to": b.Line})
+				}
+			}
+			f.Close()
+		}
+	}
 	data, err := os.ReadFile(filepath.Join(c.Verif, "properties.jsonl"))
 	if err != nil {
 		data, err = os.ReadFile("/verif/properties.jsonl")
